@@ -119,6 +119,25 @@ func plan(d *mon.Driver) ([]CaseData, []target, map[string]bool, []string, error
 			emit(t, "random", rr, someCombos(2))
 		}
 	}
+	// "cancel-defer": the operation is a deferred builtin call of a function that is still running when the
+	// context's deadline passes; it runs while the evaluation unwinds, and must still be served by the
+	// supplied OS (or not run at all). Only recipes whose operation is one call expression qualify.
+	perOp := map[string]int{}
+	nBase := len(cases)
+	for i := 0; i < nBase; i++ {
+		c := cases[i]
+		if c.Ctx != "top" || !singleCall.MatchString(c.OpSrc) || strings.ContainsAny(c.OpSrc, ";\n") {
+			continue
+		}
+		if perOp[c.Op+c.Route] >= d.N(3, 1000) {
+			continue
+		}
+		perOp[c.Op+c.Route]++
+		c.Ctx = "cancel-defer"
+		c.Events, c.Want, c.WantRe, c.Has, c.Post, c.Stdout, c.Stderr = false, "", "", nil, nil, "", ""
+		c.Kind = "generic"
+		cases = append(cases, c)
+	}
 	for op := range rec {
 		if !live[op] {
 			notes = append(notes, "recipe for "+op+" has no live function (skipped)")
@@ -132,6 +151,7 @@ type batchFindings struct {
 	batch  []string
 }
 
+var singleCall = regexp.MustCompile(`^r := [A-Za-z_][A-Za-z_0-9.]*\(.*\)$`)
 var markRe = regexp.MustCompile(`"/VMARK/(BEGIN|H0|H1)/([^"]+)"`)
 var stdMarkRe = regexp.MustCompile(`\n#VBEGIN ([^\n]*)\n`)
 
@@ -405,7 +425,7 @@ func drive(d *mon.Driver, replay string) int {
 	}
 	d.Extra("live_operation_names", opNames)
 	d.Extra("operations_without_recipe_called_generically", gl)
-	d.Extra("contexts", contexts)
+	d.Extra("contexts", append(append([]string{}, contexts...), "cancel-defer"))
 	d.Extra("routes", routes)
 	d.Extra("exhaustive", false)
 	return d.Finish(d.N(6000, 40000), d.N(2000, 8000))
@@ -525,7 +545,7 @@ func judge(d *mon.Driver, c *CaseData, o *Out, ext []string, called map[string]i
 	} else {
 		d.Event("cases_pure_no_os_call", 1)
 	}
-	if c.Kind == "recipe" && o.NEv > 0 && (c.Ctx == "clone" || c.Ctx == "go" || c.Ctx == "module" || strings.HasPrefix(c.Ctx, "late-")) {
+	if c.Kind == "recipe" && o.NEv > 0 && (c.Ctx == "clone" || c.Ctx == "go" || c.Ctx == "module" || c.Ctx == "cancel-defer" || strings.HasPrefix(c.Ctx, "late-")) {
 		d.Sample(map[string]any{"op": c.Op, "variant": c.Variant, "ctx": c.Ctx, "route": c.Route, "op_src": c.OpSrc,
 			"result": mon.Truncate(o.Result, 120), "err": o.Err, "events": o.Evs, "virtual_state_changes": o.Diff})
 	}
